@@ -31,9 +31,17 @@ def gen_texts(ck, maxcore, nsim, keep):
     rnd = random.Random(ck.seed)
     if len(out) > keep:
         out = rnd.sample(out, keep)
+    # characters a TLA+ string literal cannot spell: vertical tab, NEL, no-break space (none of them is white space
+    # for the documented scanner) at the beginning and at the end of a text
+    odd = []
+    for base in ("grammar x;", 'a = "b";', "x"):
+        for ch in ("\x0b", "\u0085", "\u00a0", "\x0c", "\u2028"):
+            odd += [ch + base, base + ch, base + " " + ch, " " + ch + " " + base]
     with open(gen, "a") as f:
         for t in out:
             f.write(json.dumps({"text": t["text"]}) + "\n")
+        for t in odd:
+            f.write(json.dumps({"text": list(t)}) + "\n")
     n = sum(1 for _ in open(gen))
     ck.log("text generator: %d texts (%d from the simulated builder)" % (n, len(out)))
     return n
